@@ -1,23 +1,185 @@
-"""Per-property claim texts used for MANIFEST.json and the evidence files."""
+"""Per-property claim texts used for MANIFEST.json and the evidence files.
+
+Only properties with at least one registered (quick-tier) harness that is discharged on the
+unchanged tree appear in CLAIMS; everything else is listed with its reason in NOT_APPLICABLE.
+"""
+
+TECH = ("Kani 0.68 proof harnesses compiled into the crate (cfg(kani)), symbolically executed and bit-blasted by "
+        "CBMC 6.11 to CaDiCaL; one SAT/UNSAT verdict per assertion / overflow / bounds / unwinding check over all "
+        "values of the symbolic inputs within the stated bounds; counterexamples replayed concretely (cargo kani playback)")
+
+TRUST = ("Trusted: Kani's MIR->goto translation, CBMC, CaDiCaL; the harness I/O models (array-backed Sink/Src/EnvReader) "
+         "and the stubs listed in the evidence; crate built with --no-default-features --features time (+aes-crypto where "
+         "named), so Deflate/Bzip2/Zstd arms are compiled out and every claim is for Stored or undecoded payloads. ")
 
 # property -> dict(text, note, technique, design_ref)
 CLAIMS = {
+    "C01": dict(
+        text="Bounded model checking of the real writer and reader code, composed through an independent APPNOTE layout "
+             "reference: (writer half) ZipWriter::{new,set_raw_comment,start_file,add_directory,add_symlink,write,finish} over "
+             "an array sink with symbolic DOS date/time words, permission word, name byte, payload bytes (<= 3), comment "
+             "bytes (<= 2), large_file on/off, one to two entries incl. implicit close: every byte of the produced archive "
+             "equals what the reference layout prescribes (name, method, time, mode, sizes, CRC = bitwise reference CRC, "
+             "offsets, counts, comment); (reader half) ZipArchive::new/by_index/read over archives of exactly that layout "
+             "family built by an independent byte-level builder with symbolic values return every value and the payload "
+             "bytes. Inside the bounds the verdict covers all values; outside them (names > 2 bytes, payloads > 3 bytes, "
+             "> 2 entries, compressing methods, finish-by-drop) nothing is claimed.",
+        note=TRUST + "Write->read is shown compositionally (writer == reference layout, reader on reference layout == values), not by "
+             "feeding the symbolic sink into the reader in one query.",
+        design_ref="DESIGN.md §5 C01, §11",
+    ),
+    "C02": dict(
+        text="Bounded model checking of the record serialisers and of the public writer API against an APPNOTE-offset "
+             "'strict reader' that shares no code with the crate: local header, central header (with ZIP64 extended "
+             "information decoded the way a strict reader does: value taken from the record iff the 32-bit field is "
+             "0xFFFFFFFF, APPNOTE order), end record, ZIP64 end record and locator - for ALL values of every scalar field "
+             "(64-bit sizes and offsets, flags, any method number, times, attributes) with 1-2 byte names and 0-4 bytes of "
+             "extra data; API level: local header == central header, offsets/sizes/counts exact, UTF-8 flag <=> non-ASCII "
+             "name, CRC/sizes match the data, for one- and two-entry archives.",
+        note=TRUST + "The length-limit clause (name/comment/extra >= 65536 bytes rejected) is outside the bound: 64 KiB symbolic "
+             "buffers are not encodable here; see DESIGN.md.",
+        design_ref="DESIGN.md §5 C02, §11",
+    ),
+    "C03": dict(
+        text="Bounded model checking of the seekable reader on archives produced by an independent byte-level builder "
+             "(APPNOTE layouts, symbolic values): end-record search over every 24-byte input, end-record / ZIP64 end "
+             "record / locator parsing for all field values, ZIP64 extended information in all 2^3 field subsets between "
+             "unknown records, ZipArchive::new + every accessor on a one-entry archive with 2 bytes of prepended junk "
+             "(offset() == junk length, offsets shifted, data descriptor bit with zeroed local sizes, any made-by system "
+             "and attributes -> unix_mode, CP437/UTF-8 name), and the entry data path find_content -> make_crypto_reader "
+             "-> ZipFile::read with a local header whose name/extra lengths differ from the central record.",
+        note=TRUST + "by_name / duplicate-name lookup (hashbrown + SipHash) is not encodable and is outside the claim (HashMap::insert "
+             "is stubbed); entry counts > 1 on the open path, compressed payloads and CPython-built archives are outside.",
+        design_ref="DESIGN.md §5 C03, §11",
+    ),
+    "C04": dict(
+        text="Bounded model checking of the checksum gate (Crc32Reader) over a pure-environment inner reader that returns "
+             "arbitrary bytes in arbitrary short chunks (so it over-approximates every decoder): a non-empty read returns "
+             "Ok(0) only if all bytes were delivered unchanged and (AE-2 or bitwise-reference CRC-32 == declared CRC); an "
+             "error arises only at EOF and only on a real mismatch; zero-length reads never consume; EOF is sticky. Streams "
+             "of 0-2 bytes (3 in thorough), all caller buffer schedules in the bound. Plus the real path by_index-style "
+             "(find_content -> make_crypto_reader -> make_reader -> Crc32Reader) with symbolic payload and symbolic "
+             "DECLARED CRC: read completes iff the declared CRC equals the reference CRC of the data.",
+        note=TRUST + "crc32fast's portable baseline path is the code encoded (CPU-feature probe stubbed); streams > 3 bytes (the 16/64-byte "
+             "folding loops) are outside the bound.",
+        design_ref="DESIGN.md §5 C04",
+    ),
+    "C05": dict(
+        text="Bounded model checking for absence of panics / arithmetic overflow / out-of-bounds / unwrap failures / unbounded "
+             "loops (CBMC's automatic checks + unwinding assertions) in the readers over hostile input: end-record search "
+             "over every 24-byte input and every too-short input, ZIP64 end-record search over arbitrary bytes and "
+             "arbitrary (nominal, bound) offsets, parse_extra_field over every 4- and 11-byte extra field with arbitrary "
+             "size/offset sentinels, by_index / by_index_raw + first read on a one-entry archive whose central metadata is "
+             "adversarial (encrypted flag, AES info present or not, any method number incl. 99, data-descriptor flag, sizes, "
+             "CRC) over an arbitrary 64-byte local-header region, truncated ZipCrypto header, AES entries shorter than "
+             "their framing, streaming reader refusing encrypted/data-descriptor entries.",
+        note=TRUST + "Memory-use bound, new_append on hostile input, the streaming reader over fully hostile headers and by_index_decrypt "
+             "with the real AES primitives are outside what was discharged within the caps (harnesses exist in tier 'dev').",
+        design_ref="DESIGN.md §5 C05, §11",
+    ),
+    "C08": dict(
+        text="Bounded model checking at the exact 32-bit boundaries with fully symbolic 64-bit values (the solver chooses "
+             "0xFFFFFFFE/FF/1_0000_0000 itself): central header writer -> strict APPNOTE ZIP64 decoding recovers "
+             "uncompressed size, compressed size and header offset EXACTLY for all 2^192 combinations; local header with "
+             "large_file; finalize at an arbitrary 62-bit archive offset through a sparse sink (ZIP64 end record + locator "
+             "present iff needed, exact values, sentinels in the classic record); ZIP64 end record / locator serialisation "
+             "and parsing for all values; reader-side ZIP64 extended information in all 2^3 subsets.",
+        note=TRUST + "Entry-count thresholds (> 65535 entries) need 65536 symbolic passes and are outside the bound; the 4 GiB write guard "
+             "harness is in tier 'dev' (not discharged within the caps).",
+        design_ref="DESIGN.md §5 C08, §11",
+    ),
+    "C09": dict(
+        text="Bounded model checking of chunking independence for the components discharged so far: the checksum reader "
+             "over an environment reader with an arbitrary short-read schedule and arbitrary caller buffer sizes incl. "
+             "zero-length reads (returned bytes and EOF/error outcome independent of the schedule, EOF sticky); the writer "
+             "with the caller splitting a payload across several write calls and entries (archive bytes equal the "
+             "reference layout for the concatenated payload).",
+        note=TRUST + "ZipCrypto / AES-CTR chunking harnesses and the short-write sink harness exist in tier 'dev' but are not discharged "
+             "within the caps on the repaired tree; the ZipCrypto short-read defect they found is recorded as fixed.",
+        design_ref="DESIGN.md §5 C09, §11",
+    ),
+    "C12": dict(
+        text="Bounded model checking of concrete misuse sequences with symbolic parameters through the public writer API: "
+             "write before any file, after a directory, after a symlink and after finish all return Err; end_extra_data "
+             "without extra data returns Err; start_file/add_directory/finish after finish return Err and leave the archive "
+             "unchanged; a new entry implicitly closes the previous one; no call panics; the finished archive holds exactly "
+             "the entries whose creation succeeded with exactly the bytes whose write succeeded (APPNOTE reference judge).",
+        note=TRUST + "Depth is that of the listed sequences (<= 7 calls); the inductive one-step formulation of DESIGN.md §5 C12 and "
+             "unsupported-method/level refusals are not discharged within the caps (tier 'dev').",
+        design_ref="DESIGN.md §5 C12, §11",
+    ),
+    "C15": dict(
+        text="Bounded model checking of the traditional PKWARE cipher: one encrypt/decrypt step equals an APPNOTE 6.1 "
+             "reference written with a bitwise CRC for ALL 2^96 key states x 2^8 bytes and decrypt inverts encrypt (by "
+             "induction every length and password); key derivation for passwords of 0-3 bytes; password validation accepts "
+             "iff the decrypted 12th header byte equals the CRC high byte / DOS-time high byte (Info-ZIP variant) for "
+             "arbitrary key state and header; truncated header is an error; the encrypting writer emits exactly the "
+             "encryption of (12-byte header with CRC check byte || content); an encrypted entry opened without a password "
+             "is refused with exactly the password-required error.",
+        note=TRUST + "'Plaintext does not appear' and 'a wrong password never completes' hold only up to check-byte/CRC collisions and are "
+             "replaced by the mechanism obligations above (DESIGN.md §5 C15).",
+        design_ref="DESIGN.md §5 C15",
+    ),
+    "C16": dict(
+        text="Bounded model checking of the WinZip-AES reader's control logic only: the 0x9901 extra field decoder maps "
+             "every (length, version, vendor, strength, inner method) to the documented mode/method or error; an AES entry "
+             "opened without a password yields the password-required error also when the encryption flag is missing; an "
+             "entry shorter than salt + verifier + authentication code is refused (no underflow) for every size and "
+             "strength.",
+        note=TRUST + "NOT covered: that PBKDF2/HMAC-SHA1/AES-CTR compute the standard algorithms, that tampering is detected (HMAC "
+             "unforgeability is not a bounded SAT question), and - not discharged within the caps - the MAC/read state "
+             "machine and verifier harnesses (tier 'dev').",
+        design_ref="DESIGN.md §5 C16, §7",
+    ),
     "C18": dict(
         text="Bounded model checking (Kani/CBMC) of the real DateTime code: from_msdos/datepart/timepart are shown mutually "
              "inverse for all 2^32 (date,time) words and equal to the APPNOTE bit layout; from_date_and_time accepts exactly the "
              "documented ranges for all 2^56 argument tuples; to_time (real `time` crate code) is total on all 2^32 words, errs "
              "exactly on impossible calendar values and try_from(to_time(x)) == x; try_from accepts exactly 1980..=2107. "
-             "These queries are loop-free and exhaustive over their whole input space.",
-        note="Trusted: Kani/CBMC/CaDiCaL; the `time` crate is encoded as compiled (not stubbed). The archive round trip of the two words is covered under C01/C02.",
-        technique="Kani proof harnesses (CBMC bit-blasting to CaDiCaL) over symbolic u16/u8 fields; SAT verdict per assertion",
+             "These queries are loop-free and exhaustive over their whole input space; the archive round trip of the two "
+             "words is part of the C01 writer/reader harnesses (symbolic date/time words).",
+        note="Trusted: Kani/CBMC/CaDiCaL; the `time` crate is encoded as compiled (not stubbed).",
         design_ref="DESIGN.md §5 C18",
     ),
+    "C19": dict(
+        text="Bounded model checking of name decoding: cp437::to_char equals the Unicode-consortium CP437 table shipped in "
+             "CPython (regenerated at check time) for all 256 bytes; FromCp437 on every 1- and 2-byte string (3 in thorough) "
+             "equals the UTF-8 encoding of those code points; through ZipArchive::new a 1-byte name decodes as UTF-8 (lossy) "
+             "when bit 11 is set and as CP437 otherwise while name_raw returns the stored byte; the writer stores the name's "
+             "UTF-8 bytes and sets bit 11 exactly for non-ASCII names (1-2 byte names incl. a two-byte scalar).",
+        note=TRUST + "Names/comments longer than 3 bytes are outside the bound (the decoders are per byte / per scalar).",
+        design_ref="DESIGN.md §5 C19",
+    ),
 }
+for _c in CLAIMS.values():
+    _c.setdefault("technique", TECH)
+
+PENDING = "solver-based harnesses exist (tier 'dev' in /verif/harness) but are not discharged within the time/memory caps on the unchanged tree, so no check is registered; see DESIGN.md §11"
 
 # property -> reason (for properties not claimed)
-NOT_APPLICABLE = {}
+NOT_APPLICABLE = {
+    "C06": PENDING + " (std::path component iteration dominates the query)",
+    "C07": "file-system effects of extract() are syscalls behind FFI with no encodable model; the reduced path-confinement harness under fs stubs is not yet discharged; see DESIGN.md §5 C07",
+    "C10": PENDING + " (only the refusal of encrypted/data-descriptor entries is discharged, registered under C05)",
+    "C11": PENDING,
+    "C13": PENDING,
+    "C14": PENDING,
+    "C17": PENDING + " (validate_extra_data's 49-entry id table forces a global unwinding bound of 51)",
+    "C20": "concurrent use from several threads and Send/Sync are not solver queries (Kani does not model threads; Send/Sync is decided by the type checker); the single-threaded interleaving harness is not built yet; see DESIGN.md §5 C20",
+}
 
 ASSUME = {}
 OUTSIDE = {
+    "C01": "names > 2 bytes, payloads > 3 bytes, > 2 entries (in particular > 65535), every compressing method and level, finish-by-drop vs finish() byte equality, by_name lookup",
+    "C02": "name/comment/extra lengths >= 65536 (length-limit clause), CPython zipfile / unzip -t as judges, encrypted/aligned/raw entries (judged under C15/C17/C14)",
+    "C03": "by_name and duplicate names, > 1 entry on the ZipArchive::new path, compressed payloads, junk prefixes > 2 bytes on the open path (the search loop itself is covered over every 24/28-byte input), CPython-produced archives",
+    "C04": "streams longer than 3 bytes; the decoders themselves; the streaming reader's gate (same type, generic harness applies)",
+    "C05": "inputs larger than the stated buffers, peak-heap bound, new_append, by_name, streaming reader over fully hostile headers, real AES primitives",
+    "C08": "entry-count thresholds (65534..65537 entries), multi-GiB real payloads (sizes are constructed symbolically), the 4 GiB write guard",
+    "C09": "ZipCrypto and AES readers, short-write sinks, decoders' own buffering, streaming reader",
+    "C12": "sequences other than the listed ones, raw copy, compression levels, unsupported methods",
+    "C15": "passwords > 3 bytes in derive (the per-byte step is proven for every state, so longer passwords follow by induction), compressing methods under encryption",
+    "C16": "cryptographic strength, real PBKDF2/HMAC/AES equivalence to the standards, tamper detection, MAC state machine",
     "C18": "nothing inside DateTime; the archive-level round trip of timestamps is part of C01/C02",
+    "C19": "names/comments longer than 3 bytes, file comments",
 }
